@@ -462,6 +462,7 @@ theorem eval_sound {V : Variant} {P : Prog} {c : Code} {w : World}
 theorem inst_int {a : Val} {w w' : World} : ∀ {t : Tm} {x : Int}, inst a w t = .lit (.int x) → inst a w' t = .lit (.int x)
   | .arg, _, h => h
   | .numarg, _, h => h
+  | .kindarg, _, h => h
   | .lit _, _, h => h
   | .file _, _, h => by simp [inst] at h
   | .call _ _, _, h => by simp [inst] at h
@@ -486,6 +487,7 @@ theorem inst_valid {V : Variant} (hS : V.simpleExprValid = true) {a : Val} {w w'
     ∀ {t : Tm}, TmCatchFree t → validE V w' (inst a w t) = true → inst a w' t = inst a w t
   | .arg, _, _ => rfl
   | .numarg, _, _ => rfl
+  | .kindarg, _, _ => rfl
   | .lit _, _, _ => rfl
   | .file p, _, h => by
     simp only [inst, validE, validV, beq_iff_eq] at h ⊢
@@ -528,6 +530,7 @@ def TmFileFree : Tm → Prop
 theorem inst_catchFree {a : Val} {w : World} : ∀ {t : Tm}, TmCatchFree t → CatchFree (inst a w t)
   | .arg, _ => trivial
   | .numarg, _ => trivial
+  | .kindarg, _ => trivial
   | .lit _, _ => trivial
   | .file _, _ => trivial
   | .call _ t, h => inst_catchFree (t := t) h
@@ -541,6 +544,7 @@ theorem inst_catchFree {a : Val} {w : World} : ∀ {t : Tm}, TmCatchFree t → C
 theorem inst_worldFree {a : Val} {w w' : World} : ∀ {t : Tm}, TmFileFree t → inst a w t = inst a w' t
   | .arg, _ => rfl
   | .numarg, _ => rfl
+  | .kindarg, _ => rfl
   | .lit _, _ => rfl
   | .file _, h => h.elim
   | .call n t, h => by simp only [inst]; rw [inst_worldFree (t := t) h]
